@@ -51,18 +51,19 @@ def _alarm(signum, frame):
 
 
 class time_limit:
-    """the reduction loops of lc_graph_operations have no variant; a hang must become a reported failure"""
+    """the reduction loops of lc_graph_operations have no variant; a hang must become a reported failure.
+    Counts CPU seconds of this process (ITIMER_VIRTUAL), so a loaded machine cannot fake a hang."""
 
     def __init__(self, seconds):
         self.seconds = seconds
 
     def __enter__(self):
-        self.old = signal.signal(signal.SIGALRM, _alarm)
-        signal.setitimer(signal.ITIMER_REAL, self.seconds)
+        self.old = signal.signal(signal.SIGVTALRM, _alarm)
+        signal.setitimer(signal.ITIMER_VIRTUAL, self.seconds)
 
     def __exit__(self, *a):
-        signal.setitimer(signal.ITIMER_REAL, 0)
-        signal.signal(signal.SIGALRM, self.old)
+        signal.setitimer(signal.ITIMER_VIRTUAL, 0)
+        signal.signal(signal.SIGVTALRM, self.old)
         return False
 
 
@@ -118,10 +119,6 @@ def _check_gate_list(gates, n, v1, v2, what):
     if not R.same_state(w, v2):
         return f"{what}: gates {norm} do not map state 1 onto state 2 (|overlap|={abs(np.vdot(w, v2)):.4f})"
     return None
-
-
-def _is_yes(ok):
-    return bool(ok) is True and isinstance(ok, (bool, np.bool_))
 
 
 # ------------------------------------------------------------------ is_lc_equivalent
@@ -229,10 +226,10 @@ def c_sequence(inp):
     if not ok:
         return None
     try:
-        with time_limit(10):
+        with time_limit(5):
             seq = lce.lc_graph_operations(A.copy(), sol)
     except _Timeout:
-        return "lc_graph_operations did not terminate within 10 s"
+        return "lc_graph_operations did not terminate within 5 CPU-seconds"
     if not isinstance(seq, list) or any(not (0 <= int(v) < n) for v in seq):
         return f"sequence is not a list of vertices: {seq!r}"
     C = L.apply_lc_sequence(A, seq)
@@ -249,10 +246,10 @@ def c_find_ops(inp):
     n = len(A)
     truth = L.same_orbit(A, B)
     try:
-        with time_limit(10):
+        with time_limit(5):
             seq = lce.find_lc_operations(A.copy(), B.copy(), mode=mode)
     except _Timeout:
-        return "find_lc_operations did not terminate within 10 s"
+        return "find_lc_operations did not terminate within 5 CPU-seconds"
     except ValueError as e:
         if truth:
             return f"false 'no': raised ValueError({e}) although graph 2 is in the LC orbit of graph 1"
